@@ -265,3 +265,351 @@ Section SignVerifyModelled.
     rewrite Hfst. unfold canon_model. rewrite Hvp. reflexivity.
   Qed.
 End SignVerifyModelled.
+
+(* Sign{AuthnRequest,LogoutRequest,LogoutResponse} with the modelled signer: the same steps, so (a) and (b) apply to its result *)
+Lemma sign_element_modelled_inv canon digest sign cfg k el signed :
+  sign_element_modelled canon digest sign cfg k el = ORet (Ok signed) ->
+  exists cx el' sg,
+    signing_context cfg k = ORet (Ok cx) /\
+    construct_signature_modelled canon digest sign cx el = ORet (Ok (el', sg)) /\
+    sign_placement el' sg = ORet (Ok signed).
+Proof.
+  unfold sign_element_modelled. destruct (signing_context cfg k) as [[cx|e]|w] eqn:ESC.
+  - intros H. destruct (sign_element_inv _ _ _ _ _ H) as (cx' & el' & sg & Hcx & HCS & HPL).
+    rewrite ESC in Hcx. inversion Hcx; subst cx'. exists cx, el', sg. auto.
+  - unfold sign_element. rewrite ESC. discriminate.
+  - unfold sign_element. rewrite ESC. discriminate.
+Qed.
+
+(* ================================================================ 4. non-vacuity and the excluded case *)
+Module SignerExample.
+  Import SVExample.
+  (* the oracles of SVExample (a 20+-byte digest, tagged signatures verifying under "DER" only for key "K"), but the
+     canonicaliser is Canon.canon_model on both sides and DigestValue / SignatureValue are computed by Signer.signer_crypto *)
+  Record mrun := { m_cx : sign_ctx; m_el : node; m_el' : node; m_sg : node; m_signed : node; m_sm : string; m_bytes : string;
+                   m_d : string; m_p : node }.
+  Definition mhonest (c : option Build.canon) (id : string) : option mrun :=
+    let cfg := cfg0 c in let cx := cx_of cfg in
+    let el := build_authn_request cfg id t_now in
+    match construct_signature_modelled canon_model t_digest t_sign cx el, declared_method cx with
+    | ORet (Ok (el', sg)), Some sm =>
+        match sign_placement el' sg, signer_digest_input canon_model cx el' with
+        | ORet (Ok signed), Some bytes =>
+            match t_digest (digest_id (cx_hash cx)) bytes with
+            | Some d =>
+                match signer_si_prepared cx sm el' (base64_encode d) with
+                | Ok p => Some {| m_cx := cx; m_el := el; m_el' := el'; m_sg := sg; m_signed := signed; m_sm := sm; m_bytes := bytes;
+                                  m_d := d; m_p := p |}
+                | Err _ => None
+                end
+            | None => None
+            end
+        | _, _ => None
+        end
+    | _, _ => None
+    end.
+  (* the recipient's parser at the two byte strings that matter *)
+  Definition m_reparse (r : mrun) (b : string) : option node :=
+    if b =?s c14n_write (m_p r) then Some (m_p r) else if b =?s m_bytes r then Some (m_el' r) else None.
+  Definition mverify (r : mrun) : dsig_result :=
+    dsig_validate canon_model t_digest t_sig_ok t_parse_cert (m_reparse r) [t_cert] t_now (m_signed r).
+  Definition moutcome (c : option Build.canon) (id : string) : option (dsig_result * node) :=
+    match mhonest c id with Some r => Some (mverify r, m_el' r) | None => None end.
+
+  (* a built AuthnRequest signed by the MODELLED signer verifies: by evaluation *)
+  Example modelled_accepted_c11 : is_ok_of (moutcome None "id-1") = true.
+  Proof. vm_compute. reflexivity. Qed.
+  Example modelled_accepted_exc : is_ok_of (moutcome (Some (CanonExc [] false)) "id-1") = true.
+  Proof. vm_compute. reflexivity. Qed.
+  Example modelled_accepted_exc_comments : is_ok_of (moutcome (Some (CanonExc [] true)) "id-1") = true.
+  Proof. vm_compute. reflexivity. Qed.
+  Example modelled_accepted_rec : is_ok_of (moutcome (Some (CanonOther alg_rec)) "id-1") = true.
+  Proof. vm_compute. reflexivity. Qed.
+  Example modelled_accepted_rec_with_comments : is_ok_of (moutcome (Some (CanonOther alg_rec_wc)) "id-1") = true.
+  Proof. vm_compute. reflexivity. Qed.
+  (* Sign* with the modelled signer returns that very tree *)
+  Example modelled_sign_element :
+    match mhonest None "id-1" with
+    | Some r => sign_element_modelled canon_model t_digest t_sign (cfg0 None) keys0 (m_el r) = ORet (Ok (m_signed r))
+    | None => False
+    end.
+  Proof. vm_compute. reflexivity. Qed.
+
+  (* (a) by evaluation: the bytes the signer signs = the bytes getCanonicalSignedInfo recomputes *)
+  Definition same_signed_info_bytes (r : mrun) : bool :=
+    match find_signature (m_signed r), signer_si_bytes canon_model (m_cx r) (m_sm r) (m_el' r) (base64_encode (m_d r)) with
+    | Ok (root', f), Ok sib =>
+        match canonical_signed_info canon_model root' f with Ok sib' => sib =?s sib' | Err _ => false end
+    | _, _ => false
+    end.
+  Definition same_si (c : option Build.canon) : bool :=
+    match mhonest c "id-1" with Some r => same_signed_info_bytes r | None => false end.
+  Example signer_signs_what_verifier_checks_examples :
+    same_si None = true /\ same_si (Some (CanonExc [] false)) = true /\ same_si (Some (CanonExc [] true)) = true /\
+    same_si (Some (CanonOther alg_rec)) = true /\ same_si (Some (CanonOther alg_c11_wc)) = true /\
+    same_si (Some (CanonExc ["xs"] false)) = true.      (* a prefix list naming no declared prefix changes nothing *)
+  Proof. repeat split; vm_compute; reflexivity. Qed.
+
+  (* ... and BY THE THEOREM: the laws hold of these oracles and every premise of sign_verify_accepts_modelled holds of this
+     run, so its hypotheses are jointly satisfiable *)
+  Definition dummy_mrun : mrun :=
+    {| m_cx := dummy_cx; m_el := Text ""; m_el' := Text ""; m_sg := Text ""; m_signed := Text ""; m_sm := ""; m_bytes := ""; m_d := "";
+       m_p := Text "" |}.
+  Definition m1 : mrun := Eval vm_compute in match mhonest None "id-1" with Some r => r | None => dummy_mrun end.
+  Example modelled_accepted_by_theorem : mhonest None "id-1" = Some m1 /\ mverify m1 = DOk (m_el' m1).
+  Proof.
+    split; [vm_compute; reflexivity|].
+    unfold mverify.
+    apply (sign_verify_accepts_modelled t_digest t_sig_ok t_parse_cert (m_reparse m1) t_sign "K" "DER" t_cert
+             t_sign_verifies t_sign_nonempty eq_refl t_digest_len
+             (m_cx m1) (m_el m1) (m_el' m1) (m_sg m1) (m_signed m1) t_now (m_sm m1) (m_bytes m1) (m_d m1) (m_p m1) (m_el' m1));
+      try (vm_compute; reflexivity); try (vm_compute; tauto); try discriminate.
+  Qed.
+
+  (* ---- excluded by "canon_alg_of c = id_alg (canon_id c)": an exclusive canonicaliser built with a prefix list naming a
+     prefix that is in scope (known finding exc-prefix-list).  The signer canonicalises the detached SignedInfo WITH the
+     list (xmlns:saml stays on ds:SignedInfo), the verifier without: other bytes, and the message is rejected ---- *)
+  Definition m_pl : mrun := Eval vm_compute in match mhonest (Some (CanonExc ["saml"] false)) "id-1" with Some r => r | None => dummy_mrun end.
+  Lemma exc_prefix_list_signs_other_bytes_refuted :
+    exists r root' f sib_signer sib_verifier,
+      mhonest (Some (CanonExc ["saml"] false)) "id-1" = Some r /\
+      signable (m_el' r) = true /\ In (canon_id (cx_canon (m_cx r))) c14n_ids /\
+      canon_alg_of (cx_canon (m_cx r)) <> id_alg (canon_id (cx_canon (m_cx r))) /\
+      find_signature (m_signed r) = Ok (root', f) /\
+      signer_si_bytes canon_model (m_cx r) (m_sm r) (m_el' r) (base64_encode (m_d r)) = Ok sib_signer /\
+      canonical_signed_info canon_model root' f = Ok sib_verifier /\
+      (sib_signer =?s sib_verifier) = false /\
+      mverify r = DErr.
+  Proof.
+    exists m_pl. eexists. eexists. eexists. eexists.
+    split; [vm_compute; reflexivity|]. split; [vm_compute; reflexivity|]. split; [vm_compute; tauto|].
+    split; [vm_compute; discriminate|]. split; [vm_compute; reflexivity|]. split; [vm_compute; reflexivity|].
+    split; [vm_compute; reflexivity|]. split; vm_compute; reflexivity.
+  Qed.
+End SignerExample.
+
+(* ================================================================ 5. (c) DigestValue covers the whole message element *)
+(* what DigestValue is: base64 of the digest of the canonicaliser's bytes for the WHOLE element handed to the signer (as the
+   canonicaliser left it); the Signature element is inserted afterwards (sign_placement) and is what the enveloped-signature
+   transform removes again on the verifier's side (P_SignVerify.verifier_reads_declared: transform yields exactly el') *)
+Theorem digest_value_covers_whole_element canon digest sign cx el' dv sv :
+  signer_crypto canon digest sign cx el' = Ok (dv, sv) ->
+  exists bytes d,
+    signer_digest_input canon cx el' = Some bytes /\ canon (canon_alg_of (cx_canon cx)) el' = Some bytes /\
+    digest (digest_id (cx_hash cx)) bytes = Some d /\ dv = base64_encode d.
+Proof.
+  intros H. destruct (signer_crypto_inv _ _ _ _ _ _ _ H) as (sm & bytes & d & sib & key & _ & Hb & Hd & Hdv & _).
+  exists bytes, d. auto.
+Qed.
+
+(* the trivial direction: elements with different canonical bytes have different digest inputs *)
+Lemma digest_input_differs canon cx e1 e2 b1 b2 :
+  signer_digest_input canon cx e1 = Some b1 -> signer_digest_input canon cx e2 = Some b2 ->
+  canon (canon_alg_of (cx_canon cx)) e1 <> canon (canon_alg_of (cx_canon cx)) e2 -> b1 <> b2.
+Proof. unfold signer_digest_input. intros H1 H2 HN E. apply HN. rewrite H1, H2, E. reflexivity. Qed.
+
+(* ---- the canonical serialisation determines every attribute value and every character-data token ---- *)
+Lemma append_inv_head (a b c : string) : (a ++ b = a ++ c)%string -> b = c.
+Proof. induction a as [|x a IH]; cbn; intros H; [exact H | inversion H; auto]. Qed.
+
+Lemma split_at_byte n c a a' b b' : is_ch n c = true -> no_byte n a = true -> no_byte n a' = true ->
+  (a ++ String c b = a' ++ String c b')%string -> a = a' /\ b = b'.
+Proof.
+  intros Hc. revert a'. unfold no_byte. induction a as [|x a IH]; intros [|y a'] Ha Ha' H; cbn [String.append str_all] in *.
+  - inversion H; auto.
+  - inversion H; subst. rewrite Hc in Ha'. discriminate.
+  - inversion H; subst. rewrite Hc in Ha. discriminate.
+  - inversion H; subst. apply andb_prop in Ha as [_ Ha]. apply andb_prop in Ha' as [_ Ha'].
+    destruct (IH a' Ha Ha' H2) as [-> ->]. auto.
+Qed.
+
+Fixpoint same_attr_names (a b : list attr) : Prop :=
+  match a, b with
+  | [], [] => True
+  | x :: r, y :: r' => at_space x = at_space y /\ at_key x = at_key y /\ same_attr_names r r'
+  | _, _ => False
+  end.
+Fixpoint same_shape (n m : node) {struct n} : Prop :=
+  match n, m with
+  | Elem s t a k, Elem s' t' a' k' =>
+      s = s' /\ t = t' /\ same_attr_names a a' /\
+      (fix go (l l' : list node) : Prop :=
+         match l, l' with [], [] => True | x :: r, y :: r' => same_shape x y /\ go r r' | _, _ => False end) k k'
+  | Text _, Text _ => True
+  | Comment s, Comment s' => s = s'
+  | ProcInst t i, ProcInst t' i' => t = t' /\ i = i'
+  | Directive s, Directive s' => s = s'
+  | _, _ => False
+  end.
+Fixpoint same_shape_kids (l l' : list node) : Prop :=
+  match l, l' with [], [] => True | x :: r, y :: r' => same_shape x y /\ same_shape_kids r r' | _, _ => False end.
+Lemma same_shape_elem s t a k s' t' a' k' :
+  same_shape (Elem s t a k) (Elem s' t' a' k') <-> (s = s' /\ t = t' /\ same_attr_names a a' /\ same_shape_kids k k').
+Proof.
+  cbn [same_shape].
+  assert (E : forall l l', (fix go (l l' : list node) : Prop :=
+         match l, l' with [], [] => True | x :: r, y :: r' => same_shape x y /\ go r r' | _, _ => False end) l l' = same_shape_kids l l').
+  { induction l as [|x r IH]; intros [|y r']; cbn [same_shape_kids]; try reflexivity; try (rewrite IH; reflexivity). }
+  rewrite E. tauto.
+Qed.
+
+Definition is_text (n : node) : bool := match n with Text _ => true | _ => false end.
+Fixpoint no_adjacent_text (l : list node) : bool :=
+  match l with
+  | x :: ((y :: _) as r) => negb (is_text x && is_text y) && no_adjacent_text r
+  | _ => true
+  end.
+(* every attribute value and character-data token is XML text; no two character-data tokens are adjacent *)
+Fixpoint plain_values (n : node) : bool :=
+  match n with
+  | Elem _ _ a k =>
+      forallb (fun x => valid_xml_text (at_val x)) a && no_adjacent_text k &&
+      (fix go (l : list node) : bool := match l with [] => true | x :: r => plain_values x && go r end) k
+  | Text s => valid_xml_text s
+  | _ => true
+  end.
+Fixpoint plain_values_kids (l : list node) : bool := match l with [] => true | x :: r => plain_values x && plain_values_kids r end.
+Lemma plain_values_elem s t a k :
+  plain_values (Elem s t a k) = forallb (fun x => valid_xml_text (at_val x)) a && no_adjacent_text k && plain_values_kids k.
+Proof.
+  cbn [plain_values]. f_equal; try (induction k as [|x r IH]; [reflexivity|]; cbn [plain_values_kids]; rewrite IH; reflexivity).
+Qed.
+
+Definition starts_lt (r : string) : Prop := exists r', r = String "<" r'.
+
+Lemma non_text_starts_lt n r : is_text n = false -> starts_lt (c14n_write n ++ r).
+Proof.
+  destruct n as [s t a k|s|s|t i|s]; intros H; try discriminate; [rewrite c14n_write_elem|cbn [c14n_write]..]; eexists; cbn [String.append]; reflexivity.
+Qed.
+
+Lemma kids_cont_starts_lt k r : starts_lt r -> (match k with x :: _ => is_text x = false | [] => True end) -> starts_lt (c14n_write_kids k ++ r).
+Proof.
+  destruct k as [|x k]; intros Hr Hx; [exact Hr|]. cbn [c14n_write_kids]. rewrite append_assoc. apply non_text_starts_lt. exact Hx.
+Qed.
+
+Lemma attrs_inj : forall a a' r1 r2,
+  same_attr_names a a' ->
+  forallb (fun x => valid_xml_text (at_val x)) a = true -> forallb (fun x => valid_xml_text (at_val x)) a' = true ->
+  (c14n_write_attrs a ++ String ">" r1 = c14n_write_attrs a' ++ String ">" r2)%string -> a = a' /\ r1 = r2.
+Proof.
+  induction a as [|x a IH]; intros [|y a'] r1 r2 HS V1 V2 H; cbn [same_attr_names] in HS; try contradiction.
+  - cbn in H. inversion H. auto.
+  - destruct HS as (Hs & Hk & HS). cbn [forallb] in V1, V2. apply andb_prop in V1 as [Vx V1]. apply andb_prop in V2 as [Vy V2].
+    cbn [c14n_write_attrs] in H. unfold c14n_write_attr in H. rewrite <- Hs, <- Hk in H.
+    rewrite !append_assoc in H. cbn [String.append] in H. inversion H as [H1]. clear H.
+    apply append_inv_head in H1. cbn [String.append] in H1. inversion H1 as [H2]. clear H1.
+    unfold Build.dq in H2. cbn [String.append] in H2.
+    apply (split_at_byte 34) in H2; [|reflexivity|apply etree_escape_no_dquote; discriminate|apply etree_escape_no_dquote; discriminate].
+    destruct H2 as [Hv H2].
+    apply canon_escape_injective in Hv; auto.
+    destruct (IH a' r1 r2 HS V1 V2 H2) as [-> ->].
+    destruct x, y; cbn in *; subst; auto.
+Qed.
+
+Lemma c14n_write_inj : forall n m r1 r2,
+  same_shape n m -> plain_values n = true -> plain_values m = true ->
+  (is_text n = true -> starts_lt r1 /\ starts_lt r2) ->
+  (c14n_write n ++ r1 = c14n_write m ++ r2)%string -> n = m /\ r1 = r2.
+Proof.
+  fix IH 1. intros [s t a k|s|s|t i|s] [s' t' a' k'|s'|s'|t' i'|s'] r1 r2 HS P1 P2 HT H; cbn [same_shape] in HS; try contradiction.
+  - apply same_shape_elem in HS. destruct HS as (<- & <- & HA & HK).
+    rewrite plain_values_elem in P1, P2. apply andb_prop in P1 as [P1 PK1]. apply andb_prop in P1 as [V1 N1].
+    apply andb_prop in P2 as [P2 PK2]. apply andb_prop in P2 as [V2 N2].
+    rewrite !c14n_write_elem in H. rewrite !append_assoc in H. cbn [String.append] in H. inversion H as [H1]. clear H.
+    apply append_inv_head in H1. cbn [String.append] in H1.
+    destruct (attrs_inj _ _ _ _ HA V1 V2 H1) as [-> H2]. clear H1.
+    assert (HKI : no_adjacent_text k = true -> plain_values_kids k = true ->
+              forall k' q1 q2, same_shape_kids k k' -> no_adjacent_text k' = true ->
+              plain_values_kids k' = true -> starts_lt q1 -> starts_lt q2 ->
+              (c14n_write_kids k ++ q1 = c14n_write_kids k' ++ q2)%string -> k = k' /\ q1 = q2).
+    { clear - IH. induction k as [|x r IHr]; intros N1 P1 [|y r'] q1 q2 HS N2 P2 Q1 Q2 H; cbn [same_shape_kids] in HS; try contradiction.
+      - cbn in H. split; [reflexivity|exact H].
+      - destruct HS as [Hxy HS]. cbn [plain_values_kids] in P1, P2. apply andb_prop in P1 as [Px P1]. apply andb_prop in P2 as [Py P2].
+        cbn [c14n_write_kids] in H. rewrite !append_assoc in H.
+        assert (Nr : no_adjacent_text r = true /\ (is_text x = true -> match r with z :: _ => is_text z = false | [] => True end)).
+        { destruct r as [|z r0]; [split; [reflexivity|trivial]|]. cbn [no_adjacent_text] in N1. apply andb_prop in N1 as [A B]. split; [exact B|].
+          intros Tx. rewrite Tx in A. cbn in A. destruct (is_text z); [discriminate|reflexivity]. }
+        assert (Nr' : no_adjacent_text r' = true /\ (is_text y = true -> match r' with z :: _ => is_text z = false | [] => True end)).
+        { destruct r' as [|z r0]; [split; [reflexivity|trivial]|]. cbn [no_adjacent_text] in N2. apply andb_prop in N2 as [A B]. split; [exact B|].
+          intros Ty. rewrite Ty in A. cbn in A. destruct (is_text z); [discriminate|reflexivity]. }
+        destruct Nr as [Nr Tx]. destruct Nr' as [Nr' Ty].
+        assert (Txy : is_text y = is_text x) by (destruct x, y; cbn [same_shape] in Hxy; try contradiction; reflexivity).
+        assert (HT : is_text x = true -> starts_lt (c14n_write_kids r ++ q1) /\ starts_lt (c14n_write_kids r' ++ q2)).
+        { intros T. split; (apply kids_cont_starts_lt; [assumption|]); [apply Tx; exact T | apply Ty; rewrite Txy; exact T]. }
+        destruct (IH x y _ _ Hxy Px Py HT H) as [-> H2].
+        destruct (IHr Nr P1 r' q1 q2 HS Nr' P2 Q1 Q2 H2) as [-> ->]. split; reflexivity. }
+    destruct (HKI N1 PK1 k' _ _ HK N2 PK2 (ex_intro _ _ eq_refl) (ex_intro _ _ eq_refl) H2) as [-> H3].
+    cbn [String.append] in H3. inversion H3 as [H4]. apply append_inv_head in H4. cbn [String.append] in H4. injection H4 as H5. split; [reflexivity|exact H5].
+  - clear IH. cbn [plain_values] in P1, P2. destruct (HT eq_refl) as [[q1 ->] [q2 ->]]. cbn [c14n_write] in H.
+    apply (split_at_byte 60) in H; [|reflexivity|apply etree_escape_no_lt|apply etree_escape_no_lt].
+    destruct H as [Hv Hq]. apply canon_escape_injective in Hv; [|assumption|assumption]. subst. auto.
+  - clear IH. subst s'. cbn [c14n_write] in H. rewrite !append_assoc in H. apply append_inv_head in H. apply append_inv_head in H. apply append_inv_head in H. auto.
+  - clear IH. destruct HS as [<- <-]. cbn [c14n_write] in H. rewrite !append_assoc in H. do 4 apply append_inv_head in H. auto.
+  - clear IH. subst s'. cbn [c14n_write] in H. rewrite !append_assoc in H. do 3 apply append_inv_head in H. auto.
+Qed.
+
+Theorem c14n_write_determines_values n m :
+  same_shape n m -> plain_values n = true -> plain_values m = true -> c14n_write n = c14n_write m -> n = m.
+Proof.
+  intros HS P1 P2 H.
+  destruct n as [s t a k|s|s|t i|s].
+  - destruct (c14n_write_inj (Elem s t a k) m "" "" HS P1 P2 (fun T => False_ind _ (Bool.diff_false_true T))) as [E _].
+    + rewrite !app_nil_r_s. exact H.
+    + exact E.
+  - destruct m as [| s' | | |]; cbn [same_shape] in HS; try contradiction.
+    cbn [c14n_write plain_values] in *. f_equal. apply (canon_escape_injective CanonText); assumption.
+  - destruct (c14n_write_inj (Comment s) m "" "" HS P1 P2 (fun T => False_ind _ (Bool.diff_false_true T))) as [E _]; [rewrite !app_nil_r_s; exact H|exact E].
+  - destruct (c14n_write_inj (ProcInst t i) m "" "" HS P1 P2 (fun T => False_ind _ (Bool.diff_false_true T))) as [E _]; [rewrite !app_nil_r_s; exact H|exact E].
+  - destruct (c14n_write_inj (Directive s) m "" "" HS P1 P2 (fun T => False_ind _ (Bool.diff_false_true T))) as [E _]; [rewrite !app_nil_r_s; exact H|exact E].
+Qed.
+
+(* PARTIAL: stated for the trees the canonicaliser PREPARED ([canon_prep]: attributes sorted, redundant declarations
+   dropped / declarations moved, comments dropped -- values are never touched by it, which is not proved here): two messages
+   whose prepared trees have the same shape (element names, attribute names, token kinds; comments / processing instructions
+   equal) and whose digest inputs are equal have the same value in every attribute and every character-data token.  So a
+   change of any attribute value or text of the message changes the bytes that are hashed into DigestValue. *)
+Theorem digest_input_determines_values_partial cx e1 e2 p1 p2 :
+  canon_prep (canon_alg_of (cx_canon cx)) e1 = Some p1 -> canon_prep (canon_alg_of (cx_canon cx)) e2 = Some p2 ->
+  same_shape p1 p2 -> plain_values p1 = true -> plain_values p2 = true ->
+  signer_digest_input canon_model cx e1 = signer_digest_input canon_model cx e2 -> p1 = p2.
+Proof.
+  intros H1 H2 HS P1 P2 H. unfold signer_digest_input, canon_model in H. rewrite H1, H2 in H. cbn [option_map] in H.
+  inversion H as [H']. apply c14n_write_determines_values; assumption.
+Qed.
+
+Module DigestExample.
+  Import SVExample SignerExample.
+  Definition cfg_acs (acs : string) : bcfg :=
+    {| b_sp_issuer := "https://sp.example/"; b_idp_issuer := "idp"; b_acs_url := acs;
+       b_idp_sso_url := "https://idp.example/sso"; b_idp_slo_url := "https://idp.example/slo"; b_force_authn := true; b_is_passive := false;
+       b_name_id_format := "urn:oasis:names:tc:SAML:1.1:nameid-format:emailAddress";
+       b_rac := Some {| rac_comparison := "exact"; rac_contexts := ["urn:c1"; "urn:c2"] |};
+       b_sign_authn_requests := true; b_sign_algorithm := ""; b_canonicalizer := None |}.
+  Definition el_a : node := build_authn_request (cfg_acs "https://sp.example/acs?a=1&b=2") "id-1" t_now.
+  Definition el_b : node := build_authn_request (cfg_acs "https://sp.example/acs?a=1&b=3") "id-1" t_now.
+  Definition cx0 : sign_ctx := cx_of (cfg_acs "").
+
+  (* the DigestValue of the accepted run m1 is base64(digest(canon_model of the whole element)) *)
+  Example digest_value_of_m1 :
+    exists sv, signer_crypto canon_model t_digest t_sign (m_cx m1) (m_el' m1) = Ok (base64_encode (m_d m1), sv) /\
+               canon_model (canon_alg_of (cx_canon (m_cx m1))) (m_el' m1) = Some (m_bytes m1) /\
+               t_digest (digest_id (cx_hash (m_cx m1))) (m_bytes m1) = Some (m_d m1).
+  Proof. eexists. split; [vm_compute; reflexivity|]. split; vm_compute; reflexivity. Qed.
+
+  (* the premises of digest_input_determines_values_partial are satisfiable, and its contrapositive at work: two
+     AuthnRequests that differ in ONE character of the AssertionConsumerServiceURL have different digest inputs *)
+  Example one_character_changes_digest_input :
+    exists p1 p2,
+      canon_prep (canon_alg_of (cx_canon cx0)) el_a = Some p1 /\ canon_prep (canon_alg_of (cx_canon cx0)) el_b = Some p2 /\
+      same_shape p1 p2 /\ plain_values p1 = true /\ plain_values p2 = true /\ p1 <> p2 /\
+      signer_digest_input canon_model cx0 el_a <> signer_digest_input canon_model cx0 el_b.
+  Proof.
+    eexists. eexists. split; [vm_compute; reflexivity|]. split; [vm_compute; reflexivity|].
+    split; [vm_compute; repeat split|]. split; [vm_compute; reflexivity|]. split; [vm_compute; reflexivity|].
+    split; [vm_compute; intros H; discriminate H|].
+    intros H.
+    assert (HN : forall p q : node, p <> q -> p = q -> False) by (intros p q A B; exact (A B)).
+    eapply HN; [|eapply (digest_input_determines_values_partial cx0 el_a el_b); try exact H; try (vm_compute; reflexivity); vm_compute; repeat split].
+    vm_compute. intros E. discriminate E.
+  Qed.
+End DigestExample.
